@@ -48,6 +48,10 @@ impl crate::anycache::AssetMap for AssetMap {
     fn insert(&self, entry: CacheEntry) -> &UntypedHandle {
         let key = OwnedKey::new_with(entry.id().clone(), entry.type_id());
         let mut map = self.map.borrow_mut();
+        #[cfg(assets_manager_verif)]
+        let _won = !map.contains_key(&key);
+        #[cfg(assets_manager_verif)]
+        crate::verif::emit("Insert", || format!("{},\"won\":{}", crate::verif::key(&key.id, key.type_id), _won));
         let entry = map.entry(key).or_insert(entry);
         unsafe { entry.inner().extend_lifetime() }
     }
